@@ -24,6 +24,7 @@ RULE = ("for every calculate_* function whose guards map every parameter and the
         "(ceil functions are also driven to solutions just above integers); every tuple is re-spelled in other prefixes and "
         "must give the same SI result. Functions outside this shape are listed as uncovered(reason). non-trivial = at least two "
         "arguments differ from 1; distinct = (function, tuple).")
+RULE = RULE + ' Also: all-negative and one mixed sign pattern per covered function (verdict only where the function returns a real value and the law has a root for those arguments); laws over indexed sums/products (18 functions) called with sequences of length 1..5 and checked against the law written out with own expansion; vector laws offered for several unknowns (14 pairs) and law-level inverse pairs (74) must be mutual inverses.'
 ASSUMPTIONS = ["decorator closures expose the guard specifications (closure introspection)",
                "scale factors form a coherent unit system (gram-metre-second), so the law can be evaluated on scale factors",
                "mpmath.findroot from the returned value finds the root the function aimed at",
